@@ -254,6 +254,73 @@ def proxy_rule(chk, db):
         chk.analysis_broken("PROXY: no bit proxy class found")
 
 
+def strbit_rule(chk, db):
+    """STRBIT: in the string constructor the character at offset i of the M characters used initialises bit M - 1 - i
+    ([bitset.cons]: the rightmost character is bit 0), the same direction to_string writes them. Decided on the linear form
+    of the bit index passed to set()/operator[]: its coefficient in the loop counter that indexes the string must be -1."""
+    from ..rules import slots as SL
+    n = 0
+    for f in db.funcs:
+        if f.get("record") not in ("etl::bitset", "etl::basic_bitset") or f["n"] != "<ctor>" or f.get("body") is None:
+            continue
+        if not any("string_view" in p0["ty"] for p0 in f["params"]):
+            continue
+        strp = [p0["n"] for p0 in f["params"] if "string_view" in p0["ty"]][0]
+        for loop in [st for st in astx.walk_stmts(f["body"]) if st.get("k") == "for"]:
+            init = loop.get("init")
+            if not init or init.get("k") != "decl" or len(init["vars"]) != 1:
+                continue
+            iv = init["vars"][0]["n"]
+            env = SL.Env(f, False)
+            for st in astx.walk_stmts(f["body"]):
+                if st.get("k") == "decl":
+                    for v in st["vars"]:
+                        if "other" not in v and v.get("init") is not None and v["n"] != iv:
+                            t = SL.lin(v["init"], env)
+                            if t is not None:
+                                env.locals[v["n"]] = t
+            char_idx = []
+            bit_idx = []
+            for x in astx.walk_stmt_exprs(loop.get("body"), into_lambdas=True):
+                if x.get("k") == "idx":
+                    # in a dependent subscript clang cannot tell base from index: accept either order
+                    bb, ii = astx.strip_casts(x["b"]), astx.strip_casts(x["i"])
+                    if bb is not None and bb.get("k") == "ref" and bb.get("n") == strp:
+                        char_idx.append(SL.lin(x["i"], env))
+                    elif ii is not None and ii.get("k") == "ref" and ii.get("n") == strp:
+                        char_idx.append(SL.lin(x["b"], env))
+                if x.get("k") == "call" and astx.callee(x)[0] in ("operator[]", "at") and astx.callee(x)[3] == "member":
+                    b = astx.strip_casts(astx.callee(x)[2])
+                    if b is not None and b.get("k") == "ref" and b.get("n") == strp and x["a"]:
+                        char_idx.append(SL.lin(x["a"][0], env))
+                if x.get("k") == "call" and astx.callee(x)[0] in ("set", "reset", "unchecked_set") and astx.is_this(astx.callee(x)[2]) and x["a"]:
+                    bit_idx.append((SL.lin(x["a"][0], env), x))
+            if not char_idx or not bit_idx:
+                continue
+            n += 1
+            construct = astx.sig(f)
+            chk.instance("STRBIT")
+            ci = [c.c.get(iv, 0) if c is not None else None for c in char_idx]
+            bad = None
+            unknown = False
+            for b, node in bit_idx:
+                if b is None or None in ci:
+                    unknown = True
+                    continue
+                # character offset grows with i (coefficient +1) => bit index must fall with i
+                if any(c * b.c.get(iv, 0) >= 0 for c in ci):
+                    bad = (b, node)
+            chk.obligation("STRBIT", construct, False if bad else (None if unknown else True))
+            if bad:
+                chk.violation("STRBIT", construct, "string-bit-order", "%s: character `%s[%s]` initialises bit `%s`: the index grows with the "
+                              "character offset, so the leftmost character becomes bit 0 (std::bitset: the rightmost)" % (
+                                  astx.loc(f, bad[1]), strp, char_idx[0], bad[0]), {"where": astx.loc(f)})
+            elif unknown:
+                chk.unknown_instance("STRBIT", construct, "index expressions are not linear forms")
+    if n < 1:
+        chk.analysis_broken("STRBIT: no string constructor with a character loop found in bitset")
+
+
 def witness(chk):
     pro = "#include <etl/bitset.hpp>\n#include <etl/cstdint.hpp>\n#include <bitset>\n#include <type_traits>\n"
     tu = wit.TU("c17", pro)
@@ -295,6 +362,7 @@ def run(chk, tier):
     deleg_rule(chk, db)
     guard_rule(chk, db)
     proxy_rule(chk, db)
+    strbit_rule(chk, db)
     nrel = rel.check(chk, db, ["_bitset/bitset.hpp"])
     witness(chk)
     chk.assumptions += [
